@@ -339,3 +339,60 @@ def delegate(run, rule, sub_prop, fn, only_rules=None, note=""):
         n += 1
     run.analysed_funcs |= sub.analysed_funcs
     return n
+
+
+
+# ---------------------------------------------------------------------------
+# discarded futures: errors raised by tasks handed to a concurrent.futures executor surface only when the result is asked for
+
+def discarded_futures_in(fnode):
+    """[(call node, executor name, method)] for `pool.map(..)` / `pool.submit(..)` whose value is thrown away, where `pool` is bound
+    to a `*PoolExecutor(...)` in this function (with-statement or assignment).  `Executor.map` is lazy: an exception raised by a
+    task is re-raised only when the result iterator is consumed; a discarded `submit` future never reports its exception."""
+    pools = set()
+    for n in ast.walk(fnode):
+        if isinstance(n, ast.With):
+            for it in n.items:
+                if isinstance(it.context_expr, ast.Call) and (dotted(it.context_expr.func) or "").split(".")[-1].endswith("PoolExecutor") \
+                        and isinstance(it.optional_vars, ast.Name):
+                    pools.add(it.optional_vars.id)
+        if isinstance(n, ast.Assign) and isinstance(n.value, ast.Call) and (dotted(n.value.func) or "").split(".")[-1].endswith("PoolExecutor"):
+            for t in n.targets:
+                if isinstance(t, ast.Name):
+                    pools.add(t.id)
+    out = []
+    for n in ast.walk(fnode):
+        if isinstance(n, ast.Expr) and isinstance(n.value, ast.Call) and isinstance(n.value.func, ast.Attribute) \
+                and n.value.func.attr in ("map", "submit") and isinstance(n.value.func.value, ast.Name) and n.value.func.value.id in pools:
+            out.append((n.value, n.value.func.value.id, n.value.func.attr))
+    return out
+
+
+def check_discarded_futures(run, rule, funcs, what):
+    """Apply the rule to *funcs*; returns the number of executor uses seen (also the consumed ones)."""
+    n = 0
+    for f in funcs:
+        if f.module.kind != "py":
+            continue
+        uses = [c for c in ast.walk(f.node) if isinstance(c, ast.Call) and isinstance(c.func, ast.Attribute) and c.func.attr in ("map", "submit")
+                and isinstance(c.func.value, ast.Name)]
+        bad = discarded_futures_in(f.node)
+        n += len(bad)
+        for call, pool, meth in bad:
+            run.note_func(f)
+            run.violated(rule, f, call, "%s: the result of %s.%s(...) is thrown away, so an exception raised by a task is never re-raised in the caller: %s" % (
+                f.short, pool, meth, what), kind="task-errors-dropped")
+    return n
+
+
+_FUTURES_EXAMPLE = """
+def send_all(names, put_one):
+    from concurrent.futures import ThreadPoolExecutor
+    with ThreadPoolExecutor(max_workers=4) as pool:
+        pool.map(put_one, names)
+"""
+
+
+def discarded_futures_selfcheck():
+    tree = ast.parse(_FUTURES_EXAMPLE)
+    return len(discarded_futures_in(tree.body[0])) == 1
